@@ -8,6 +8,8 @@ G  every model pair, in both operand orders: each returned (t1,t2) must be in [0
    crossings with exchanged parameters.  Circle-lattice arc pairs (A-L, A-Q, A-C, A-A circular);
    Path.intersect: T <-> (segment, t) coherence and membership.
 """
+import cmath
+import math
 import random
 
 from .. import crossmodel as cm
@@ -127,6 +129,36 @@ def run(ck):
     for name, a, b, known in cm.arc_families() + cm.ellipse_families():
         ck.case(fp=('arc', name, repr(a), repr(b)), nontrivial=True)
         pair_case(ck, name, a, b, known, 1e-3, {'family': name, 'a': repr(a), 'b': repr(b)})
+    # a quadratic whose crossing polynomial with an axis-parallel line has no linear term (start and control at the same offset from the line)
+    for qz, lz in (((0 + 1j, 1 + 1j, 2 - 1j), (-1 + 0j, 3 + 0j)), ((1 + 0j, 1 + 2j, -3 + 4j), (0 - 1j, 0 + 5j)), ((2 + 3j, 5 + 3j, 8 - 5j), (0 + 1j, 9 + 1j)), ((0 - 2j, 3 - 2j, 6 + 2j), (7 + 0j, -1 + 0j))):
+        qd, ln = sp.QuadraticBezier(*qz), sp.Line(*lz)
+        ck.case(fp=('quad-line-no-linear-term', str(qz)), nontrivial=True)
+        pair_case(ck, 'quadratic with start and control equally far from an axis-parallel line', qd, ln, None, 1e-5, {'q': [str(w) for w in qz], 'l': [str(w) for w in lz]})
+    # circular arcs on tangent circles (one inside the other / outside each other), both as receiver: whatever is reported must coincide and be symmetric
+    for c1, r1, c2, r2, P in ((0j, 10.0, 7 + 0j, 3.0, 10 + 0j), (0j, 10.0, 13 + 0j, 3.0, 10 + 0j), (1 + 1j, 5.0, 1 + 4j, 2.0, 1 + 6j)):
+        a0 = math.degrees(cmath.phase(P - c1))
+        b0 = math.degrees(cmath.phase(P - c2))
+        A1, A2 = cm.arc_through(c1, r1, a0 - 50, a0 + 40), cm.arc_through(c2, r2, b0 - 70, b0 + 100)
+        ck.case(fp=('tangent-circles', str(c2), r2), nontrivial=True)
+        pair_case(ck, 'arcs on tangent circles', A1, A2, None, 1e-3, {'c1': str(c1), 'r1': r1, 'c2': str(c2), 'r2': r2})
+    # a path of several sub-paths met exactly at the last point of a sub-path that is not the last one
+    for d1, other in (('M0,0 L4,0 M0,5 L4,5', sp.Path(sp.Line(4 + 0j, 6 + 2j))), ('M0,0 L4,0 M0,5 L4,5', sp.Path(sp.Line(4 - 3j, 4 + 0j))),
+                      ('M1,1 Q3,4 5,1 M-2,-2 L-5,-6', sp.Path(sp.Line(5 + 1j, 9 - 1j)))):
+        pa = sp.parse_path(d1)
+        for A, B in ((pa, other), (other, pa)):
+            ck.case(fp=('subpath-end-meeting', d1, A is pa), nontrivial=True)
+            try:
+                res = A.intersect(B)
+            except Exception as e:      # noqa
+                ck.disagree(key='Path.intersect/raises-' + type(e).__name__, site='svgpathtools/path.py:Path.intersect', what='%r x %r raised %r' % (A, B, e),
+                            case={'d': d1}, expected='list', observed=repr(e), driver='path')
+                continue
+            for ((T1, s1, t1), (T2, s2, t2)) in res:
+                pts = [A.point(T1), s1.point(t1), s2.point(t2), B.point(T2)]
+                if not (max(abs(p_ - pts[1]) for p_ in pts) <= 1e-5 * 10):
+                    ck.disagree(key='Path.intersect/incoherent', site='svgpathtools/path.py:Path.intersect / Path.point',
+                                what='%s met at the end of a sub-path: ((%r, seg, %r), (%r, seg, %r)) gives points %s' % (d1, T1, t1, T2, t2, pts), case={'d': d1},
+                                expected='four equal points', observed=[str(p_) for p_ in pts], driver='path')
     # Path.intersect coherence
     for name, p1, p2, exp in cm.path_families():
         ck.case(fp=('path', name), nontrivial=True)
